@@ -2,7 +2,7 @@
 trusted base of the checks that reach it; models used are recorded in Exec.fns_reached."""
 import re
 import z3
-from .mirsym import (Agg, EnumV, SymEnum, Ref, SliceRef, VecV, StrV, IterV, Opaque, FnPtr, CoroV, Cell, UNIT, PathEnd,
+from .mirsym import (Agg, EnumV, SymEnum, Ref, SliceRef, VecV, StrV, IterV, Opaque, FnPtr, CoroV, Cell, UNIT, PathEnd, StreamV, slice_len,
                      Unsupported, BV, concrete, simp, bool_to_bv, merge_vals)
 
 STOP = [
@@ -241,7 +241,7 @@ def as_slice(ex, v):
         if isinstance(v, SliceRef):
             return v
         if isinstance(v, VecV):
-            return SliceRef(v.lst, 0, len(v.lst))
+            return SliceRef(v.lst, 0, len(v.lst), v.tail)
         if isinstance(v, StrV):
             return SliceRef(v.vec.lst, 0, len(v.vec.lst))
         if isinstance(v, Agg) and not (len(v.f) >= 1 and isinstance(v.f[0], (Ref, SliceRef)) and False):
@@ -581,7 +581,8 @@ def _vec_pop(ex, fn, args):
 
 @model('std::vec::Vec::len')
 def _vec_len(ex, fn, args):
-    return B64(len(deref(ex, args[0], VecV).lst))
+    v = deref(ex, args[0], VecV)
+    return B64(len(v.lst)) if v.tail is None else B64(len(v.lst)) + v.tail
 
 
 @model('std::vec::Vec::is_empty')
@@ -644,6 +645,9 @@ def _from_elem(ex, fn, args):
         pass
     alloc_request(ex, args[1], esz, 'vec![x; n]')
     if n is None:
+        if ex.sym_len_ok:
+            nn = args[1] if args[1].size() == 64 else z3.ZeroExt(64 - args[1].size(), args[1])
+            return VecV([], tail=nn)
         raise Unsupported('vec![x; n] with symbolic n within budget')
     return VecV([ex.clone(args[0]) for _ in range(n)])
 
@@ -723,7 +727,7 @@ def _from_utf8_unchecked(ex, fn, args):
 
 @model('core::slice::<impl []>::len')
 def _slice_len(ex, fn, args):
-    return B64(as_slice(ex, args[0]).len)
+    return slice_len(as_slice(ex, args[0]))
 
 
 @model('core::slice::<impl []>::is_empty')
@@ -991,7 +995,7 @@ def reader_state(ex, r):
     while isinstance(cur, Ref):
         ref = cur
         cur = ex.read(ref.cell, ref.path)
-    if not isinstance(cur, SliceRef):
+    if not isinstance(cur, (SliceRef, StreamV)):
         raise Unsupported('reader is %r' % (cur,))
     return ref, cur
 
@@ -1000,12 +1004,33 @@ def reader_state(ex, r):
 def _read_exact(ex, fn, args):
     ref, cur = reader_state(ex, args[0])
     buf = as_slice(ex, args[1])
+    if isinstance(cur, StreamV):
+        return _stream_read_exact(ex, cur, buf)
+    if buf.tail is not None:
+        raise Unsupported('symbolic-length read from a concrete buffer')
     if cur.len < buf.len:
         ex.write(ref.cell, ref.path, SliceRef(cur.lst, cur.start + cur.len, 0))
         return err(io_error('UnexpectedEof'))
     for i in range(buf.len):
         buf.lst[buf.start + i] = cur.lst[cur.start + i]
     ex.write(ref.cell, ref.path, SliceRef(cur.lst, cur.start + buf.len, cur.len - buf.len))
+    return ok(UNIT)
+
+
+def _stream_read_exact(ex, st, buf):
+    k = buf.len
+    if isinstance(st.pos, int):
+        for i in range(k):
+            j = st.pos + i
+            buf.lst[buf.start + i] = st.head[j] if j < len(st.head) else ex.fresh('stream', 8)
+        st.pos += k
+    else:
+        for i in range(k):
+            buf.lst[buf.start + i] = ex.fresh('stream', 8)
+        st.pos = st.pos + B64(k)
+    st.reads.append(slice_len(buf))
+    if buf.tail is not None:
+        st.pos = (B64(st.pos) if isinstance(st.pos, int) else st.pos) + buf.tail
     return ok(UNIT)
 
 
@@ -1033,7 +1058,13 @@ def _read_to_end(ex, fn, args):
 def _write_all_vec(ex, fn, args):
     v = deref(ex, args[0], VecV)
     s = as_slice(ex, args[1])
+    if v.tail is not None:
+        if s.len == 0 and s.tail is None:
+            return ok(UNIT)
+        raise Unsupported('write after a symbolic-length tail')
     v.lst.extend(s.items())
+    if s.tail is not None:
+        v.tail = s.tail
     return ok(UNIT)
 
 
